@@ -167,4 +167,32 @@ theorem quantile_at_own_rank {x : List Rat} (hx : x.Nodup) (hn : 2 ≤ x.length)
     iecdf1 .linear x (ecdfLin1 x v) = v :=
   iecdfLinear_ecdfLin hx hn (minQ_le hv) (le_maxQ hv)
 
+/-- for any `y`: `iecdf(x, ecdf(x, y))` is `y` clamped to the sample range (constant extension of `np.interp`) -/
+theorem iecdfLinear_ecdfLin_clamp {x : List Rat} (hx : x.Nodup) (hn : 2 ≤ x.length) (y : Rat) :
+    iecdf1 .linear x (ecdfLin1 x y) = max (minQ x) (min (maxQ x) y) := by
+  have hne : x ≠ [] := by intro h; rw [h] at hn; simp at hn
+  have hmm := minQ_le_maxQ hne
+  have hsn : 2 ≤ (sortQ x).length := by rw [sortQ_length]; exact hn
+  by_cases hlow : y < minQ x
+  · have hc : cnt (sortQ x) y = 0 := by
+      by_contra hc
+      have := cnt_below (sortQ x) y 0 (by omega)
+      rw [sortQ_head x hne] at this
+      linarith
+    have h0 : ecdfLin1 x y = 0 := by
+      unfold ecdfLin1
+      rw [interp1_below hc, linspace01_first (by omega)]
+    rw [h0]
+    unfold iecdf1 iecdfSorted
+    simp only []
+    rw [quantileLinear_zero hsn, sortQ_head x hne, min_eq_right (by linarith), max_eq_left (le_of_lt hlow)]
+  by_cases hhigh : maxQ x < y
+  · have h1 : ecdfLin1 x y = 1 := ecdfLin_top hn (fun v hv => le_trans (le_maxQ hv) (le_of_lt hhigh))
+    rw [h1]
+    unfold iecdf1 iecdfSorted
+    simp only []
+    rw [quantileLinear_one, sortQ_length, sortQ_last x hne, min_eq_left (le_of_lt hhigh), max_eq_right hmm]
+  · rw [iecdfLinear_ecdfLin hx hn (not_lt.mp hlow) (not_lt.mp hhigh),
+      min_eq_right (not_lt.mp hhigh), max_eq_right (not_lt.mp hlow)]
+
 end Lemmas.Stats
